@@ -38,6 +38,7 @@ from apischema.deserialization.coercion import Coerce, Coercer
 from apischema.deserialization.flattened import get_deserialization_flattened_aliases
 from apischema.deserialization.methods import (
     AdditionalField,
+    AnyCopyMethod,
     AnyMethod,
     BoolMethod,
     CoercerMethod,
@@ -356,7 +357,9 @@ class DeserializationMethodVisitor(
 
     def any(self) -> DeserializationMethodFactory:
         def factory(constraints: Optional[Constraints], _) -> DeserializationMethod:
-            return AnyMethod(dict(constraints_validators(constraints)))
+            any_constraints = dict(constraints_validators(constraints))
+            # with no_copy=False, the result shares no container with the data
+            return (AnyMethod if self.no_copy else AnyCopyMethod)(any_constraints)
 
         return self._factory(factory)
 
